@@ -1,5 +1,6 @@
 import OZ.DrvUtil
 import OZ.Model.AccessMon
+import OZ.Model.AccessStkMon
 /-
 Driver for C06 (roles, role admins, admin / owner guards, enumeration).
 
@@ -27,6 +28,19 @@ the implementation's observations. `checkCore` is proved sound in OZ/Props/C06Mo
 (`monitor_accepts_every_model_trace`). Not covered by that theorem (string level, trusted):
 `parseOp`, `parseObs` (the observation grammar; `site=ac.parse`) and the fact that `parseObs`
 applied to the line `stepLine` prints yields `OZ.Access.Mon.modelObs` of the printed state.
+
+Fourth machine `stk` (label `kind=stk`; harness contract `stk::Stacked2`: sixteen entry points stacking TWO
+role guards, every ordered pair of has_role / only_role / has_any_role / only_any_role):
+  label        `... kind=stk admin=<a> start=<ledger>`
+  op lines     stk <outer>_<inner> a=<acct> b=<acct> auth=       (hr has_role, or only_role, ha has_any_role, oa only_any_role)
+               stk grant a=<acct> r=<role> auth=                 stk revoke a=<acct> r=<role> auth=
+  observation  ok|err ret=<i|-> counter=<i> roles=<bits of accounts 0..4 for role 0>;<role 1>;<role 2>
+It has its own small model side and monitor core, `OZ.Access.Stk.Mon.stepM` / `checkCore`
+(OZ/Model/AccessStkMon.lean, proved sound in OZ/Props/C06StkMon.lean); `machine` dispatches on the label
+(`Sigma` / `MonSt`), this file only parses (`StkIO.parseOp`, `StkIO.parseObs`) and prints (`StkIO.obsLine`) for
+it. The lines and `site=` tokens of the machines lib / nft / own are unchanged. String level and trusted
+like the other parsers: the dispatch on `kind=stk`, `StkIO.parseOp` / `parseObs` (an absent or malformed
+field of an observation reads as its default; an unparsable op line is `site=ac.parse`).
 -/
 namespace OZ.Drv.C06
 open OZ.Drv OZ.Access OZ.Access.Mon OZ.Host
@@ -158,13 +172,102 @@ def check (m : Mon) (opl obs : String) : Mon × Option String :=
   | some (auth, op), some o => checkCore m auth op o
   | _, _ => (m, some s!"site=ac.parse unparsable op/observation: {opl} / {obs}")
 
+/-! ### machine `stk` (stacked role guards): parsing and printing only -/
+
+namespace StkIO
+open OZ.Access.Stk OZ.Access.Stk.Mon
+
+def parseMac (s : String) : Option Mac :=
+  match s with
+  | "hr" => some .has
+  | "or" => some .only
+  | "ha" => some .hasAny
+  | "oa" => some .onlyAny
+  | _ => none
+
+/-- `<outer>_<inner>` -/
+def parseFn (s : String) : Option Fn :=
+  match s.splitOn "_" with
+  | [o, i] => do pure ⟨(← parseMac o), (← parseMac i)⟩
+  | _ => none
+
+/-- the parameter of a `kind=stk` label -/
+def paramsOf (label : String) : Stk.Mon.Params := { admin := (kvNat? (words label) "admin").getD 0 }
+
+/-- the op line, as both the model side and the monitor read it -/
+def parseOp (line : String) : Option (List Nat × Stk.Op) :=
+  match words line with
+  | "stk" :: name :: rest =>
+    let auth := natList ((kv? rest "auth").getD "-")
+    match name with
+    | "grant" => do pure (auth, .grant (← kvNat? rest "a") (← kvNat? rest "r"))
+    | "revoke" => do pure (auth, .revoke (← kvNat? rest "a") (← kvNat? rest "r"))
+    | _ => do pure (auth, .call (← parseFn name) (← kvNat? rest "a") (← kvNat? rest "b"))
+  | _ => none
+
+def bits (l : List Bool) : String := String.join (l.map fun b => if b then "1" else "0")
+
+/-- the observation line: the fields of `OZ.Access.Stk.Mon.modelObs` -/
+def obsLine (tag : String) (o : Stk.Mon.Obs) : String :=
+  let ret := match o.ret with | some r => toString r | none => "-"
+  s!"{tag} ret={ret} counter={o.st.counter} roles={";".intercalate (o.st.roles.map bits)}"
+
+def stepLine (x : Stk.St) (line : String) : Stk.St × String :=
+  match parseOp line with
+  | none => (x, "bad-op")
+  | some (auth, op) =>
+    let r := stepM x auth op
+    (r.1, obsLine (if r.2 then "ok" else "err") (modelObs r.1 r.2 op))
+
+/-- the observation line as the monitor reads it (never fails: absent fields read as defaults) -/
+def parseObs (obs : String) : Stk.Mon.Obs :=
+  let ows := words obs
+  { ok := ows.head? = some "ok",
+    ret := kvInt? ows "ret",
+    st := { counter := (kvInt? ows "counter").getD 0,
+            roles := (((kv? ows "roles").getD "").splitOn ";").map fun b => b.toList.map (· == '1') } }
+
+def check (m : Stk.Mon.Mon) (opl obs : String) : Stk.Mon.Mon × Option String :=
+  match parseOp opl with
+  | some (auth, op) => checkCore m auth op (parseObs obs)
+  | none => (m, some s!"site=ac.parse unparsable op/observation: {opl} / {obs}")
+
+end StkIO
+
+/-! ### dispatch on the label -/
+
+/-- the model state of a sequence: one of the machines lib / nft / own, or the machine `stk` -/
+inductive Sigma where
+  | ac (m : M)
+  | stk (x : OZ.Access.Stk.St)
+
+inductive MonSt where
+  | ac (m : Mon)
+  | stk (m : OZ.Access.Stk.Mon.Mon)
+
+def isStk (label : String) : Bool := kv? (words label) "kind" == some "stk"
+
+def initAny (label : String) : Sigma :=
+  if isStk label then .stk (OZ.Access.Stk.Mon.initM (StkIO.paramsOf label)) else .ac (initM label)
+
+def opAny : Sigma → String → Sigma × String
+  | .ac m, line => let r := stepLine m line; (.ac r.1, r.2)
+  | .stk x, line => let r := StkIO.stepLine x line; (.stk r.1, r.2)
+
+def minitAny (label : String) : MonSt :=
+  if isStk label then .stk (OZ.Access.Stk.Mon.monInit (StkIO.paramsOf label)) else .ac (minit label)
+
+def monAny : MonSt → String → String → MonSt × Option String
+  | .ac m, opl, obs => let r := check m opl obs; (.ac r.1, r.2)
+  | .stk m, opl, obs => let r := StkIO.check m opl obs; (.stk r.1, r.2)
+
 def machine : Machine where
-  σ := M
-  init := initM
-  op := stepLine
-  μ := Mon
-  minit := minit
-  mon := check
+  σ := Sigma
+  init := initAny
+  op := opAny
+  μ := MonSt
+  minit := minitAny
+  mon := monAny
 
 end OZ.Drv.C06
 
